@@ -467,7 +467,38 @@ pub fn run_history(h: &[Op17]) -> Result<Vec<u8>, Fail> {
         let sig = if observed.len() != expect.len() { "iteration-wrong-set" } else { "iteration-wrong-order" };
         return Err((sig.into(), format!("over a world holding every type the table yields {:?}, first-registration order is {:?}", observed, expect), h.len()));
     }
+    // the lookup path (`get`) reads another table than iteration does: probe it for every type too
+    let mut got: Vec<u8> = Vec::new();
+    for i in 0..5u8 {
+        if i == 4 {
+            insert(&mut probe, 4);
+        }
+        let r = catch_unwind(AssertUnwindSafe(|| {
+            let res = probe.get_mut_raw(rid(i)).unwrap();
+            let addr = res as *mut dyn Resource as *mut u8 as usize;
+            t.get(res).map(|o| (o.tag(), o.addr() == addr))
+        }));
+        let registered = m.reg.contains(&i);
+        let code = match r {
+            Err(_) => 200,
+            Ok(None) => 100,
+            Ok(Some((tag, same))) => tag + if same { 0 } else { 50 },
+        };
+        let want = if registered { i } else { 100 };
+        if code != want {
+            let sig = match code {
+                200 => "meta-get-panicked",
+                100 => "registered-type-not-converted",
+                _ if !registered => "unregistered-type-converted",
+                _ => "wrong-object-returned",
+            };
+            return Err((sig.into(), format!("get on a resource of type {} gives code {} (tag, +50 = other address, 100 = None, 200 = panic), expected {}", i, code, want), h.len()));
+        }
+        got.push(code);
+    }
     let mut key = observed;
+    key.push(97);
+    key.extend(got);
     key.push(98);
     key.extend(m.reg.iter().copied().filter(|i| *i == 5));
     key.push(99);
